@@ -288,6 +288,9 @@ func runC01(c *Ctx) {
 	c10ParserPerConnectionRule(c, "C01-D9")
 	sendUnderTransportLock(c, "C01-D9")
 	c01Round4(c)
+	c.Rule("C01-D13", "the connection handlers have run before the socket's first event can be dispatched (F69, known finding): in Namespace.doConnect the fan-out over the OnAnyConnection/OnConnection handlers is synchronous and precedes the CONNECT reply — "+
+		"a fan-out started on a goroutine after the reply races with the client's first events, which are dispatched with the handler set of that moment and dropped silently", 1)
+	connectionHandlersBeforeFirstEvent(c, "C01-D13")
 
 	c.Rule("C01-D8", "transport upgrade keeps packets whole (shared with C02-D5/C07-D2): the swap, the flush of the old transport's queue onto the new one and the UPGRADE bookkeeping happen in one write-locked region, "+
 		"so a concurrent Send cannot land between a binary event's header and its attachments", 12)
